@@ -43,7 +43,8 @@ FIELDS = {
                       "self.graph.vertices": ("self_graph_vertices", "set")},
 }
 FIELDS["CFConfigMoves"] = {"self.q_vertex": ("self_q_vertex", "key"), "self.v_tilde_vertices": ("self_v_tilde_vertices", "set"),
-                           "self.divisor.degrees": ("self_divisor_degrees", "dictZ"), "self.divisor.graph.graph": ("self_divisor_graph_graph", "dictD")}
+                           "self.divisor.degrees": ("self_divisor_degrees", "dictZ"), "self.divisor.graph.graph": ("self_divisor_graph_graph", "dictD"),
+                           "self.graph.vertices": ("self_graph_vertices", "set"), "self.graph.graph": ("self_graph_graph", "dictD")}
 SRC_CLASS = {"CFConfigMoves": "CFConfig"}          # a group that is translated from the source of another class (kept in a file of its own)
 CROSS = {"self_degrees": "self_divisor_degrees", "self_graph_graph": "self_divisor_graph_graph"}      # fields of self.divisor as seen from a CFConfig
 ENUMS = {}     # "OrientationState.NAME" -> int, read from the source of the enum class
@@ -62,6 +63,7 @@ TARGETS = [
     ("chipfiring/CFOrientation.py", "CFOrientation", "get_in_degree"), ("chipfiring/CFOrientation.py", "CFOrientation", "get_out_degree"),
     ("chipfiring/CFOrientation.py", "CFOrientation", "get_orientation"), ("chipfiring/CFOrientation.py", "CFOrientation", "is_source"), ("chipfiring/CFOrientation.py", "CFOrientation", "is_sink"),
     ("chipfiring/CFConfig.py", "CFConfigMoves", "__init__"), ("chipfiring/CFConfig.py", "CFConfigMoves", "get_degree_at"), ("chipfiring/CFConfig.py", "CFConfigMoves", "is_non_negative"), ("chipfiring/CFConfig.py", "CFConfigMoves", "get_degree_sum"), ("chipfiring/CFConfig.py", "CFConfigMoves", "get_q_underlying_degree"),
+    ("chipfiring/CFConfig.py", "CFConfigMoves", "_is_comparable_to"), ("chipfiring/CFConfig.py", "CFConfigMoves", "__eq__"), ("chipfiring/CFConfig.py", "CFConfigMoves", "__ge__"), ("chipfiring/CFConfig.py", "CFConfigMoves", "__le__"),
     ("chipfiring/CFConfig.py", "CFConfigMoves", "set_fire"), ("chipfiring/CFConfig.py", "CFConfigMoves", "lending_move"), ("chipfiring/CFConfig.py", "CFConfigMoves", "borrowing_move"),
 ]
 class Unsupported(Exception): pass
@@ -77,16 +79,18 @@ def ann_type(a):
     if s == "OrientationState": return "Z"
     if s in ("List[Tuple[str, int]]", "typing.List[typing.Tuple[str, int]]"): return "pairs"
     if s == "CFGraph": return "graphobj"
+    if s in ("'CFConfig'", '"CFConfig"'): return "cfgparam"
     if s in ("Optional[typing.Dict[str, int]]", "typing.Optional[typing.Dict[str, int]]", "Optional[Dict[str, int]]"): return "optdict"
     if s in ("'CFDivisor'", '"CFDivisor"', "CFDivisor"): return "divparam"
     if s in ("Set[str]", "typing.Set[str]", "typing.Set[typing.str]"): return "set"
     raise Unsupported("annotation " + s)
 DONE = {}      # (cls, name) -> Fn, in translation order
+CFGPARAM = [("q_vertex", "key"), ("graph_vertices", "set"), ("graph_graph", "dictD"), ("v_tilde_vertices", "set"), ("divisor_degrees", "dictZ")]
 
 class Fn:
     def __init__(self, node, cls):
         self.node = node; self.cls = cls; self.env = {}; self.params = []; self.tmp = 0; self.pending = []
-        self.reads = []; self.writes = []; self.uses_order = False; self.rty = None; self.can_raise = False
+        self.reads = []; self.writes = []; self.uses_order = False; self.rty = None; self.can_raise = False; self.objargs = {}
         self.bookkeeping = {"seen_edges", "edge"} if (cls, node.name) == ("CFGraph", "add_edges") else set()
     def fresh(self, p="t"): self.tmp += 1; return "%s%d_" % (p, self.tmp)
     def field(self, e, write=False):
@@ -124,6 +128,29 @@ class Fn:
                 and ((self.env.get(ast.unparse(e).split(".")[0]) == "divparam" and ast.unparse(e).split(".", 1)[1] in ("graph.vertices", "degrees"))
                      or (self.env.get(ast.unparse(e).split(".")[0]) == "divparam3" and ast.unparse(e).split(".", 1)[1] in ("graph.vertices", "degrees", "graph.graph"))):
             o_, r_ = ast.unparse(e).split(".", 1); return o_ + "_" + r_.replace(".", "_"), {"graph.vertices": "set", "degrees": "dictZ", "graph.graph": "dictD"}[r_]
+        if isinstance(e, ast.Attribute) and ast.unparse(e).split(".")[0] in self.env and self.env[ast.unparse(e).split(".")[0]] == "cfgparam" \
+                and ast.unparse(e).split(".", 1)[1].replace(".", "_") in [f_ for f_, _ in CFGPARAM]:
+            o_, r_ = ast.unparse(e).split(".", 1); return o_ + "_" + r_.replace(".", "_"), dict(CFGPARAM)[r_.replace(".", "_")]
+        if isinstance(e, ast.Call) and isinstance(e.func, ast.Attribute) and isinstance(e.func.value, ast.Name) and self.env.get(e.func.value.id) == "cfgparam" \
+                and DONE.get((self.cls, e.func.attr)) is not None and not e.keywords:
+            # a read-only method of this class called on ANOTHER configuration: the same translated function on the other object's fields
+            callee = DONE[(self.cls, e.func.attr)]; o_ = e.func.value.id
+            if callee.writes or callee.rty is None or callee.uses_order or callee.objargs or len(e.args) != len(callee.params): bad(e, "method of another configuration")
+            args = []
+            for fld in callee.reads:
+                if not fld.startswith("self_") or fld[5:] not in [f_ for f_, _ in CFGPARAM]: bad(e, "field %s of another configuration" % fld)
+                args.append(o_ + fld[4:])
+            for a_, (_, ty_) in zip(e.args, callee.params):
+                t_, tt_ = self.expr(a_)
+                if tt_ != ty_: bad(e, "argument type")
+                args.append(t_)
+            call = "%s_%s %s" % (self.cls, e.func.attr, " ".join(args))
+            if not callee.can_raise: return "(%s)" % call, callee.rty
+            t = self.fresh(); self.pending.append((t, "CALL_ " + call)); self.can_raise = True; return t, callee.rty
+        if isinstance(e, ast.Call) and isinstance(e.func, ast.Attribute) and e.func.attr == "get" and len(e.args) == 2 and not e.keywords and isinstance(e.args[1], ast.Dict) and not e.args[1].keys:
+            d, td = self.expr(e.func.value); k, tk = self.expr(e.args[0])
+            if td != "dictD" or tk != "key": bad(e, "get with an empty-dictionary default on %s" % td)
+            return "(d_get %s [] %s)" % (k, d), "dictZ"
         if isinstance(e, ast.List) and not e.elts: return "(@nil (nat * Z))", "pairs"        # (only ever appended to with (name, int) pairs: checked at the append)
         if isinstance(e, ast.Call) and isinstance(e.func, ast.Name) and e.func.id == "isinstance" and len(e.args) == 2 and isinstance(e.args[0], ast.Name) \
                 and self.env.get(e.args[0].id) == "Z" and ast.unparse(e.args[1]) == "int": return "true", "bool"      # a parameter annotated int (assumption of the tie: callers respect the annotation)
@@ -256,6 +283,8 @@ class Fn:
                 return {ast.Lt: "(Nat.ltb %s %s)", ast.LtE: "(Nat.leb %s %s)", ast.Gt: "(Nat.ltb %s %s)", ast.GtE: "(Nat.leb %s %s)"}[type(op)] % ((a, b) if isinstance(op, (ast.Lt, ast.LtE)) else (b, a)), "bool"
             if ta == "key" and tb == "key" and isinstance(op, (ast.Eq, ast.NotEq)):
                 t = "(Nat.eqb %s %s)" % (a, b); return (t if isinstance(op, ast.Eq) else "(negb %s)" % t), "bool"
+            if ta == "dictZ" and tb == "dictZ" and isinstance(op, (ast.Eq, ast.NotEq)):
+                t = "(dict_eqb %s %s)" % (a, b); return (t if isinstance(op, ast.Eq) else "(negb %s)" % t), "bool"
             if ta == "set" and tb == "set" and isinstance(op, (ast.Eq, ast.NotEq)):
                 t = "(set_eqb %s %s)" % (a, b); return (t if isinstance(op, ast.Eq) else "(negb %s)" % t), "bool"
             if ta != "Z" or tb != "Z": bad(e, "comparison of %s and %s" % (ta, tb))
@@ -268,7 +297,9 @@ class Fn:
             return self.lookup(d, k), ("Z" if td == "dictZ" else "dictZ")
         bad(e, ast.unparse(e)[:60])
     def call_args(self, callee, e):
-        names = [p for p, _ in callee.params]; vals = {}
+        exp_ = {x_ for v_ in callee.objargs.values() for x_, _ in v_}
+        names = [p for p, _ in callee.params if p not in exp_] + list(callee.objargs); vals = {}
+        if callee.objargs and (len(callee.objargs) != 1 or [p for p, _ in callee.params if p not in exp_]): bad(e, "object argument mixed with others")
         if len(e.args) > len(names): bad(e, "too many arguments")
         for n, a in zip(names, e.args): vals[n] = a
         for kw in e.keywords:
@@ -281,9 +312,13 @@ class Fn:
             out.append(fld)
         if callee.uses_order: self.uses_order = True; out.append("set_order")
         for n, ty in callee.params:
+            if n in exp_: continue
             a, ta = self.expr(vals[n])
             if ta != ty: bad(e, "argument %s of type %s, expected %s" % (n, ta, ty))
             out.append(a)
+        for o_, fs_ in callee.objargs.items():
+            if not (isinstance(vals[o_], ast.Name) and self.env.get(vals[o_].id) == "cfgparam"): bad(e, "object argument")
+            out += [vals[o_].id + x_[len(o_):] for x_, _ in fs_]
         return out
     def wrap(self, text):
         """close the lookups hoisted while translating the current statement around `text`"""
@@ -593,6 +628,10 @@ class Fn:
             self.env[a.arg] = ann_type(a.annotation)
             if self.env[a.arg] == "graphobj":       # a CFGraph argument is seen through its vertex set and its adjacency dictionary
                 self.params.append((a.arg + "_vertices", "set")); self.params.append((a.arg + "_graph", "dictD")); continue
+            if self.env[a.arg] == "cfgparam":       # another configuration: its sink, its graph's vertex set and adjacency dictionary, its V - {q}, the chips of its divisor
+                self.objargs[a.arg] = [(a.arg + "_" + f_, t_) for f_, t_ in CFGPARAM]
+                for p_ in self.objargs[a.arg]: self.params.append(p_)
+                continue
             if self.env[a.arg] == "divparam":       # another divisor is seen through the vertex set of its graph and its dictionary of chips
                 self.params.append((a.arg + "_graph_vertices", "set")); self.params.append((a.arg + "_degrees", "dictZ")); continue
             self.params.append((a.arg, self.env[a.arg]))
